@@ -11,7 +11,7 @@
         // C37: whoever asked for the repository gets a result only after it was recorded as updated
         res is Ok ==> in_updated(run_of(&self.updated), *rpki_notify),
         final(clk).now >= old(clk).now,
-//@ closure 1
+//@ closure then 1 optional
 || -> (r: FmtArgs)
 //@ global
 // The two locks belong to this run, and the collector's ghost back-pointer names it.
